@@ -1627,7 +1627,7 @@ class NLDFAuxiliaryPlan(ABC):
             return vf_qg
         if self.coef_order == "gq":
             p_i_qg = [p.T for p in p_i_qg]
-        nalpha = p_i_qg[0].shape[1]
+        nalpha = p_i_qg[0].shape[0]
         for i in range(len(p_i_qg)):
             vf_qg[:nalpha] += p_i_qg[i] * vfeat[i]
         return vf_qg
